@@ -149,13 +149,13 @@ def cases(seed, tier):
     rng = rng_for(seed, 'C20')
     out = []
     # other properties' workloads replayed under the always-on snapshot probe
-    per = 2 if tier == 'quick' else 40
+    per = 2 if tier == 'quick' else 100
     for mon in FOREIGN:
         for r in range(per):
             out.append({'group': 'foreign', 'monitor': mon, 'fseed': int(rng.integers(1 << 20)),
                         'index': int(rng.integers(1 << 20)), 'seed': int(rng.integers(1 << 31))})
     groups = ['univariate', 'bivariate', 'gaussian', 'vine', 'optimize', 'plots', 'misc']
-    reps = 3 if tier == 'quick' else 40
+    reps = 3 if tier == 'quick' else 150
     for r in range(reps):
         for g in groups:
             out.append({'group': g, 'seed': int(rng.integers(1 << 31))})
